@@ -14,40 +14,82 @@ import (
 // C08 — a snapshot taken under concurrent commits restores to a consistent cut
 // ---------------------------------------------------------------------------
 
-type snapRun struct {
-	*concRun
+// snapShot is one Snapshot call of a run.
+type snapShot struct {
 	Buf          bytes.Buffer
 	Err          error
 	SBegin, SEnd int
-	Free         bool // free-parallel run: see the rule for hi in checkSnapRun
+	Task         int
+}
+
+type snapRun struct {
+	*concRun
+	Snaps []*snapShot
+	Free  bool // free-parallel run: see the rule for hi in checkOneSnap
+}
+
+// addSnapshot registers a task that calls Snapshot once (after `before` has run).
+func (sr *snapRun) addSnapshot(before func()) *snapShot {
+	sn := &snapShot{}
+	sr.Snaps = append(sr.Snaps, sn)
+	sn.Task = sr.S.Add(fmt.Sprintf("snapshot%d", len(sr.Snaps)), func() {
+		if before != nil {
+			before()
+		}
+		sn.SBegin = sr.S.Tick()
+		sn.Err = sr.C.Snapshot(&sn.Buf)
+		sn.SEnd = sr.S.Tick()
+	})
+	return sn
 }
 
 func startSnapRun(p *concProgram, capacity int) *snapRun {
 	sr := &snapRun{concRun: startConcRun(p, capacity)}
-	sr.S.Add("snapshot", func() {
-		sr.SBegin = sr.S.Tick()
-		sr.Err = sr.C.Snapshot(&sr.Buf)
-		sr.SEnd = sr.S.Tick()
-	})
+	sr.addSnapshot(nil)
 	return sr
 }
 
-// checkSnapRun evaluates the C08 oracle. It returns a violation message (or "")
-// and whether the case is non-trivial.
+// checkSnapRun evaluates the C08 oracle for every Snapshot call of the run. It returns a
+// violation message (or "") and whether the case is non-trivial.
 func checkSnapRun(sr *snapRun) (string, bool, []string) {
 	var labels []string
-	if sr.Err != nil {
-		return fmt.Sprintf("Snapshot failed while writers were committing: %v", sr.Err), false, nil
-	}
+	nt := false
 	refs, bad := sr.attribute()
 	if bad != "" {
 		return "", false, nil // C15's business
 	}
+	for i, sn := range sr.Snaps {
+		if sn.Err != nil {
+			if len(sr.Snaps) > 1 && strings.Contains(sn.Err.Error(), "another one might be in progress") {
+				// two overlapping Snapshot calls: the library documents that one of them is refused
+				labels = append(labels, "overlapping-snapshot-refused")
+				continue
+			}
+			return fmt.Sprintf("Snapshot call %d failed while writers were committing: %v", i+1, sn.Err), false, nil
+		}
+		msg, n, l := checkOneSnap(sr, sn, refs)
+		if msg != "" {
+			if len(sr.Snaps) > 1 {
+				msg = fmt.Sprintf("Snapshot call %d of %d overlapping ones: %s", i+1, len(sr.Snaps), msg)
+			}
+			return msg, false, nil
+		}
+		nt = nt || n
+		labels = append(labels, l...)
+	}
+	if len(sr.Snaps) > 1 {
+		labels = append(labels, "two-snapshot-calls")
+	}
+	return "", nt, labels
+}
+
+func checkOneSnap(sr *snapRun, sn *snapShot, refs []partRef) (string, bool, []string) {
+	var labels []string
 	recs := sr.Log.Since(sr.N0)
 	sch := *sr.P.Init.Sch
 	dst := newCollection(&sch, column.Options{})
 	defer dst.Close()
-	rerr, badR := guarded(func() error { return dst.Restore(bytes.NewReader(sr.Buf.Bytes())) })
+	rerr, badR := guarded(func() error { return dst.Restore(bytes.NewReader(sn.Buf.Bytes())) })
 	if badR != "" || rerr != nil {
 		return fmt.Sprintf("Restore of the snapshot: err=%v %s", rerr, badR), false, nil
 	}
@@ -73,6 +115,9 @@ func checkSnapRun(sr *snapRun) (string, bool, []string) {
 	during := 0
 	var openClk, closeClk int
 	for _, e := range sr.S.Trace {
+		if e.Task != sn.Task {
+			continue
+		}
 		if e.Point == "snapshot:recorder-open" {
 			openClk = e.Clock
 		}
@@ -95,17 +140,17 @@ func checkSnapRun(sr *snapRun) (string, bool, []string) {
 		lo, hi := 0, 0
 		for n, i := range idx {
 			ref := refs[i]
-			if sr.Ack[ref.Task][ref.Txn] != 0 && sr.Ack[ref.Task][ref.Txn] < sr.SBegin {
+			if sr.Ack[ref.Task][ref.Txn] != 0 && sr.Ack[ref.Task][ref.Txn] < sn.SBegin {
 				lo++
 			}
-			if !sr.Free && sr.Clocks[i] < sr.SEnd {
+			if !sr.Free && sr.Clocks[i] < sn.SEnd {
 				hi++
 			}
 			// Under real parallelism a commit reaches the snapshot's recorder before it reaches
 			// the recording logger (both under the block latch), and Snapshot can return in
 			// between: the commit was applied when Snapshot returned although its logical time
 			// is later. The sound bound there: its transaction had at least begun.
-			if sr.Free && sr.Begin[ref.Task][ref.Txn] < sr.SEnd {
+			if sr.Free && sr.Begin[ref.Task][ref.Txn] < sn.SEnd {
 				hi = n + 1
 			}
 		}
@@ -181,6 +226,9 @@ func TestC08Sched(t *testing.T) {
 		p := genConcProgram(t, init, c08Cfg(t, tasks))
 		sr := startSnapRun(p, rapid.SampledFrom([]int{1, 1024, 16385}).Draw(t, "capacity"))
 		defer sr.Close()
+		if rapid.IntRange(0, 3).Draw(t, "second-snapshot") == 0 {
+			sr.addSnapshot(nil) // a second, overlapping Snapshot call: refused, or a consistent cut of its own
+		}
 		var decisions []int
 		sr.S.Pick = func(runnable []int, last int) int {
 			d := rapid.IntRange(0, len(runnable)-1).Draw(t, "sched")
@@ -228,6 +276,8 @@ func c08FixedPrograms() map[string]*concProgram {
 			[]TxnSpec{tx(up(16384, mM(2), mA(5)))}),
 		"snapshot + 1 writer with 2 transactions over 2 blocks": mk(two,
 			[]TxnSpec{tx(up(0, mM(1)), up(16384, mM(1))), tx(up(16384, mM(3)), up(0, mA(2)))}),
+		"2 snapshots + 1 writer with 2 single-block transactions": mk(one,
+			[]TxnSpec{tx(up(0, mM(1))), tx(up(0, mM(3), mA(2)))}),
 	}
 }
 
@@ -240,6 +290,9 @@ func TestC08Exhaustive(t *testing.T) {
 		for {
 			enum.pos = 0
 			sr := startSnapRun(p, 1024)
+			if strings.HasPrefix(name, "2 snapshots") {
+				sr.addSnapshot(nil)
+			}
 			sr.S.Pick = enum.pick
 			sr.ok = sr.S.Run()
 			if !sr.ok {
